@@ -82,7 +82,7 @@ def build_field(case):
     mesh = gen.build_mesh(g, subs=case["subs"])
     arr = make_values(case, (*n, case["k"]))
     kw = {"vdims": list(case["vdims"])} if case.get("vdims") else {}
-    return mesh, df.Field(mesh, nvdim=case["k"], value=arr, unit=case["unit"], **kw), arr
+    return mesh, df.Field(mesh, nvdim=case["k"], value=np.array(arr, copy=True), unit=case["unit"], **kw), arr
 
 
 def nontrivial(case):
@@ -388,7 +388,7 @@ def check_sidecar(case):
             except ValueError:
                 raise Reject() from None
             arr = gen.make_array(fc["seed"], (*n, 3))
-            f = df.Field(mesh, nvdim=3, value=arr)
+            f = df.Field(mesh, nvdim=3, value=np.array(arr, copy=True))
             path = os.path.join(tmp, "relax" + fc["ext"])
             f.to_file(path, representation=fc["rep"])
             written.append((path, fc, arr))
